@@ -336,7 +336,15 @@ def r4(ctx, tq, sch, wk):
     elif idx['pop']:
       # pop without running: the cancelled head
       n_cancel += 1
-      ok = ('cancelled', True) in fs or any(c.endswith('cancelled') and t for c, t in POS(fs))
+      cnames = set(['cancelled'])
+      for e_ in ev:
+        if e_.kind == 'stmt' and isinstance(e_.node, ast.Assign) and isinstance(e_.node.targets[0], ast.Tuple):
+          el = e_.node.targets[0].elts
+          if is_peek(e_.node.value) and len(el) >= 3:
+            cnames.add(U(el[2]))
+          if isinstance(e_.node.value, ast.Call) and (call_name(e_.node.value) or '').split('.')[-1] == 'heappop' and len(el) == 4:
+            cnames.add(U(el[2]))
+      ok = any((c in cnames and t) or (c[3:] in cnames and c.startswith('not') and not t) for c, t in fs) or any(c.endswith('cancelled') and t for c, t in POS(fs))
       ctx.ob('C10.R4', wk, 'an entry is dropped without running only if it is cancelled', ok, 'drop path has facts %s' % fs, why + '; dropping a live entry loses its action')
     elif idx['twait'] and not idx['pop']:
       # woken by a newer item: nothing popped, loop again
